@@ -7,6 +7,11 @@ Import ListNotations.
 Local Open Scope Z_scope.
 Ltac Zify.zify_post_hook ::= Z.div_mod_to_equations.
 
+Lemma lcg_iter_S n s : lcg_iter (S n) s = lcg_iter n (lcg_next s).
+Proof. reflexivity. Qed.
+Lemma lcg_iter_1 s : lcg_iter 1 s = lcg_next s.
+Proof. reflexivity. Qed.
+
 (* ---------------------------------------------------------------- primality by trial division *)
 Fixpoint trial (fuel : nat) (n d : Z) : bool :=
   match fuel with O => true | S f => negb (n mod d =? 0) && trial f n (d + 1) end.
@@ -231,7 +236,7 @@ Proof.
   induction fuel; intros s H k Hk; [lia|].
   cbn [ring_nonzerorandom] in H.
   destruct (Z.eqb_spec (init (lcg_next s)) 0) as [E|E]; [| discriminate].
-  destruct k; [exact E|]. cbn [lcg_iter]. apply (IHfuel (lcg_next s) H k). lia.
+  destruct k; [rewrite lcg_iter_1; exact E|]. rewrite lcg_iter_S. apply (IHfuel (lcg_next s) H k). lia.
 Qed.
 Lemma ring_nonzerorandom_some fuel init : forall s a s',
   ring_nonzerorandom fuel init s = Some (a, s') -> a <> 0 /\ a = init s' /\ exists k, (k < fuel)%nat /\ s' = lcg_iter (S k) s.
@@ -240,8 +245,8 @@ Proof.
   cbn [ring_nonzerorandom] in H.
   destruct (Z.eqb_spec (init (lcg_next s)) 0) as [E|E].
   - destruct (IHfuel _ _ _ H) as [H1 [H2 [k [Hk Ek]]]]. split; [assumption|]. split; [assumption|].
-    exists (S k). split; [lia|]. cbn [lcg_iter]. exact Ek.
-  - injection H as <- <-. split; [assumption|]. split; [reflexivity|]. exists 0%nat. split; [lia | reflexivity].
+    exists (S k). split; [lia|]. rewrite lcg_iter_S. exact Ek.
+  - injection H as <- <-. split; [assumption|]. split; [reflexivity|]. exists 0%nat. split; [lia | symmetry; apply lcg_iter_1].
 Qed.
 
 (* p >= 2, the ring's init maps exactly the multiples of p to the zero element (true of every Modular /
